@@ -215,7 +215,7 @@ def run(ctx):
                 S = c["empirical_covariance"]
                 if S is None or c["train_inverse"] is None:
                     continue
-                fresh = _mc.reinflate_matrix(_admm.admm_optimize_theta(np.array(S, copy=True), cfg.get("lam", 0.11), cfg["W"], cfg["N"]).theta)
+                fresh = _mc.reinflate_matrix(_admm.admm_optimize_theta(np.array(S, copy=True), e2e.lam_of(cfg), cfg["W"], cfg["N"]).theta)
                 eps = cfg.get("eps", 0)
                 if eps:
                     fresh[(fresh < eps) & (fresh > -eps)] = 0
